@@ -33,7 +33,8 @@ OUTSIDE_COMMON = "larger graphs and longer histories than the bounds; the nightl
 TRACE_ENTRIES = (['h_trace_tuple%d' % i for i in range(1, 13)] + ['h_trace_array%d' % i for i in (0, 1, 2, 3, 32)] +
                  ['h_trace_vec', 'h_trace_boxed_slice', 'h_trace_option', 'h_trace_result', 'h_trace_box', 'h_trace_manuallydrop',
                   'h_trace_assertunwindsafe', 'h_trace_refcell', 'h_trace_vec_option', 'h_trace_option_box_tuple', 'h_trace_refcell_vec',
-                  'h_trace_tuple_vec_option', 'h_trace_array_option', 'h_trace_vec_manuallydrop', 'h_trace_result_vec'])
+                  'h_trace_tuple_vec_option', 'h_trace_array_option', 'h_trace_vec_manuallydrop', 'h_trace_result_vec', 'h_trace_vec_long',
+                  'h_trace_manuallydrop_cycle'])
 
 PROPS = {}
 
@@ -41,7 +42,7 @@ PROPS['C01'] = dict(
     bounds=GRAPH_BOUNDS, outside=OUTSIDE_COMMON,
     runs=both('h_graph_n2', covers=[1, 2]) + [R('h_graph_n2', 'none', covers=[1, 2]), R('h_graph_n2', 'faw', 'release', covers=[1, 2])]
          + [R('h_graph_n3', covers=[1, 2]), R('h_graph_n3', 'fa', 'release', T, covers=[1, 2])]
-         + [R('h_fin_n3', covers=[1])]
+         + [R('h_fin_n3', covers=[1]), R('h_panic_n4_q', covers=[1, 11]), R('h_panic_n3', 'fa', 'release', covers=[1])]
          + both('h_graph_n3_untraced', tiers=T, covers=[1]) + [R('h_graph_n3_s2', tiers=T, covers=[1])]
          + twin('h_graph_twin'),
 )
@@ -49,7 +50,7 @@ PROPS['C02'] = dict(
     bounds=GRAPH_BOUNDS + "; panic-free programs; quiescence must be reached within 3-4 collect_cycles() calls (obligation x23)",
     outside=OUTSIDE_COMMON,
     runs=[R('h_graph_n3', 'fa', 'release', covers=[1, 2]), R('h_graph_n2', 'none', 'release', covers=[1, 2]), R('h_graph_n2', 'faw', covers=[1, 2])]
-         + [R('h_fin_n2', covers=[1, 2]), R('h_fin_weak_n2', 'faw', covers=[1])]
+         + [R('h_fin_n2', covers=[1, 2]), R('h_fin_weak_n2', 'faw', covers=[1]), R('h_chain12', covers=[1]), R('h_chain12', 'fa', 'release', covers=[1])]
          + [R('h_fin_n3_stash', tiers=T, covers=[1]), R('h_fin_n2', 'fa', 'release', T, covers=[1, 2]), R('h_graph_n3_untraced', tiers=T, covers=[1])]
          + twin('h_fin_twin'),
 )
@@ -60,14 +61,14 @@ PROPS['C03'] = dict(
     outside="sizes above 4 KiB; allocation failure; " + OUTSIDE_COMMON,
     runs=both('h_layout_grid', 'faw', covers=[1]) + [R('h_layout_grid', 'none', covers=[1]), R('h_layout_zst', 'faw', covers=[1])]
          + [R('h_graph_n2', 'fa', 'release', covers=[1, 2]), R('h_weak_prog_n2', 'faw', covers=[1, 2]), R('h_unwrap_weak', 'faw', covers=[1, 2])]
-         + [R('h_cyclic', 'faw', covers=[1, 2, 3])]
+         + [R('h_cyclic', 'faw', covers=[1, 2, 3]), R('h_trace_manuallydrop_cycle', covers=[1]), R('h_layout_small', 'faw', covers=[1]), R('h_layout_small', 'fa', 'release', covers=[1])]
          + twin('h_layout_twin', 'faw'),
 )
 PROPS['C04'] = dict(
     bounds=GRAPH_BOUNDS + "; strong_count() compared with the model count after every operation for ALL phantom counts (one solver variable per object)",
     outside=OUTSIDE_COMMON,
     runs=both('h_graph_n2', covers=[1, 2]) + [R('h_graph_n3', 'fa', 'release', covers=[1, 2])]
-         + [R('h_sat_strong', 'faw', covers=[1, 2]), R('h_panic_n2', covers=[1]), R('h_unwrap', covers=[1, 2])]
+         + [R('h_sat_strong', 'faw', covers=[1, 2]), R('h_panic_n2', covers=[1]), R('h_unwrap', covers=[1, 2]), R('h_nest_n2', covers=[1])]
          + [R('h_panic_n3_hist', tiers=T, covers=[1])]
          + twin('h_graph_twin'),
 )
@@ -77,14 +78,14 @@ PROPS['C05'] = dict(
            "reference-count path and the collector path; later history of resurrected objects incl. finalize_again",
     outside=OUTSIDE_COMMON,
     runs=[R('h_fin_n2', covers=[1, 2]), R('h_fin_n3', 'fa', 'release', covers=[1]), R('h_fin_weak_n2', 'faw', covers=[1])]
-         + [R('h_graph_n2', 'none', covers=[1, 2])]  # finalization off: finalize is never called
+         + [R('h_graph_n2', 'none', covers=[1, 2]), R('h_nest_n2', covers=[1])]  # finalization off: finalize is never called
          + [R('h_fin_n3_stash', tiers=T, covers=[1]), R('h_fin_weak_n3', 'faw', tiers=T, covers=[1]), R('h_fin_n2', 'fa', 'release', T, covers=[1, 2])]
          + twin('h_fin_twin'),
 )
 PROPS['C06'] = dict(
     bounds=PROPS['C05']['bounds'] + "; termination: a path exceeding 3M IR instructions or 4 collect calls without quiescence is a violation",
     outside=OUTSIDE_COMMON + "; chains of more than 4 finalizer-released objects",
-    runs=[R('h_fin_n3_stash', covers=[1]), R('h_fin_n2', covers=[1, 2]), R('h_fin_weak_n2', 'faw', covers=[1])]
+    runs=[R('h_fin_n3_stash', covers=[1]), R('h_fin_n2', covers=[1, 2]), R('h_fin_weak_n2', 'faw', covers=[1]), R('h_chain12', covers=[1])]
          + [R('h_fin_n2', 'fa', 'release', T, covers=[1, 2]), R('h_fin_n3', tiers=T, covers=[1]), R('h_fin_weak_n3', 'faw', tiers=T, covers=[1]), R('h_fin_weak_n2', 'faw', 'release', T, covers=[1])]
          + twin('h_fin_twin'),
 )
@@ -94,7 +95,7 @@ PROPS['C07'] = dict(
            "continuation: a further symbolic operation, collections, all safety oracles; new_cyclic closure panics and cleaning-action panics in their families",
     outside="panics while already unwinding (abort by definition), panics raised by the crate's own guards; " + OUTSIDE_COMMON,
     runs=both('h_panic_n3', covers=[1, 11, 12, 13]) + [R('h_panic_n2', covers=[1]), R('h_panic_n2', 'none', covers=[1]), R('h_cyclic', 'faw', covers=[1, 2, 3])]
-         + [R('h_panic_n3', 'faw', 'release', covers=[1])]
+         + [R('h_panic_n3', 'faw', 'release', covers=[1]), R('h_panic_n4_q', covers=[1, 11]), R('h_panic_n4_trace', tiers=T, covers=[1])]
          + [R('h_panic_n2_two', tiers=T, covers=[1]), R('h_panic_n3_hist', tiers=T, covers=[1]), R('h_clean_panic', 'fawc', tiers=Q, covers=[1])]
          + twin('h_panic_twin'),
 )
@@ -131,7 +132,7 @@ PROPS['C11'] = dict(
            "set is predicted for finalizer-free programs of N<=3 nodes",
     outside=OUTSIDE_COMMON,
     runs=both('h_buffer_n3', covers=[1]) + [R('h_buffer_n3', 'none', covers=[1]), R('h_unwrap', covers=[1, 2]), R('h_nest_n2', covers=[1])]
-         + [R('h_fin_n2', covers=[1, 2])]
+         + [R('h_fin_n2', covers=[1, 2]), R('h_panic_n3', covers=[1])]
          + twin('h_graph_twin'),
 )
 PROPS['C12'] = dict(
@@ -139,7 +140,7 @@ PROPS['C12'] = dict(
            "(probe = try_unwrap and finalize_again on a unique program-held Cc); objects die by plain drop, by an explicit collection or by a collection "
            "triggered by Cc::new; is_tracing() sampled in every callback",
     outside=OUTSIDE_COMMON,
-    runs=both('h_nest_n2', covers=[1, 3]) + [R('h_fin_n2', covers=[1, 2]), R('h_nest_n2', 'faw', covers=[1])]
+    runs=both('h_nest_n2', covers=[1, 3]) + [R('h_fin_n2', covers=[1, 2]), R('h_nest_n2', 'faw', covers=[1]), R('h_nest_n2_full', tiers=T, covers=[1, 3])]
          + twin('h_nest_twin'),
 )
 PROPS['C13'] = dict(
@@ -147,14 +148,14 @@ PROPS['C13'] = dict(
            "solver variable (uniqueness decided for all counts); 0..2 Weaks (weak-ptrs); layouts through the C03 grid",
     outside=OUTSIDE_COMMON,
     runs=both('h_unwrap', covers=[1, 2]) + both('h_unwrap_weak', 'faw', covers=[1, 2]) + [R('h_unwrap', 'none', covers=[1, 2]), R('h_layout_grid', 'faw', covers=[1])]
-         + [R('h_nest_n2', covers=[1, 3])]
+         + [R('h_nest_n2', covers=[1, 3]), R('h_layout_small', 'faw', covers=[1]), R('h_panic_n3', covers=[1])]
          + twin('h_unwrap_twin'),
 )
 PROPS['C14'] = dict(
     bounds="closure behaviour in {plain, save a Weak clone, keep a Weak in the value, allocate, collect_cycles(), save two clones and panic}; collector state in "
            "{idle, garbage 2-cycle buffered, garbage buffered and its first trace/finalize/drop callback panics}; automatic collection due or disabled",
     outside=OUTSIDE_COMMON,
-    runs=both('h_cyclic', 'faw', covers=[1, 2, 3]) + [R('h_cyclic', 'fawc', covers=[1, 2, 3]), R('h_layout_grid', 'faw', covers=[1])]
+    runs=both('h_cyclic', 'faw', covers=[1, 2, 3]) + both('h_cyclic_in_drop', 'faw', covers=[1]) + [R('h_cyclic', 'fawc', covers=[1, 2, 3]), R('h_layout_grid', 'faw', covers=[1])]
          + twin('h_cyclic_twin', 'faw'),
 )
 PROPS['C15'] = dict(
@@ -163,7 +164,7 @@ PROPS['C15'] = dict(
            "wiring: 3 (thorough: 4) allocations of two size classes with configuration changes at symbolic points, percent in {0, 0.5, 1}",
     outside="allocated bytes >= 2^62 (the doubling loop overflows usize there - stated, not claimed), 32-bit targets",
     runs=[R('h_policy_trigger', covers=[1]), R('h_policy_trigger', 'fa', 'release', covers=[1]), R('h_policy_adjust_small', covers=[1]),
-          R('h_policy_wiring', covers=[1, 2, 3]), R('h_policy_wiring', 'fa', 'release', covers=[1, 2, 3]), R('h_nest_n2', covers=[1])]
+          R('h_policy_wiring', covers=[1, 2, 3]), R('h_policy_wiring', 'fa', 'release', covers=[1, 2, 3]), R('h_nest_n2', covers=[1]), R('h_chain12', covers=[1])]
          + [R('h_policy_adjust_full', tiers=T, covers=[1]), R('h_policy_adjust_small', 'fa', 'release', T, covers=[1]), R('h_policy_wiring4', tiers=T, covers=[1])]
          + twin('h_policy_twin'),
     budget_s=dict(quick=900, thorough=5400),
@@ -201,7 +202,7 @@ PROPS['C20'] = dict(
            "also a Cc compared with its own clone; Debug/Display/Pointer: 12 format specs (width, fill, alignment, sign, zero padding, precision, alternate, hex-debug) through the "
            "real core::fmt::write of the whole-program (fat LTO) IR, with a symbolic Ok/Err result of the payload's fmt",
     outside="f32; formatting of payload types other than the recording probe (the claim is 'forwards to T with the caller's Formatter', decided on 12 format specs)",
-    runs=both('h_layout_grid', 'faw', covers=[1]) + both('h_forward_ints', covers=[1]) + both('h_forward_f64', covers=[1]) + [R('h_layout_zst', covers=[1])]
+    runs=both('h_layout_grid', 'faw', covers=[1]) + both('h_forward_ints', covers=[1]) + both('h_forward_f64', covers=[1]) + [R('h_layout_zst', covers=[1])] + both('h_layout_small', covers=[1])
          + [R('h_fmt_forward', 'fa', 'dev', covers=[1], lto=True), R('h_fmt_twin', 'fa', 'dev', Q, twin=True, lto=True)]
          + twin('h_layout_twin', 'faw'),
 )
